@@ -124,7 +124,7 @@ def gen_case(rng, *, n_ops, listeners=True, waits=True, attach=False, weird=Fals
     """a history Tor can emit, interleaved with API calls; object ids are predicted the way objects are created
     (an id that is not live gets a new object)"""
     w = World(rng)
-    case = {'snap_c': [], 'snap_s': [], 'pre': [], 'ops': []}
+    case = {'snap_c': [], 'snap_s': [], 'pre': [], 'ops': [], 'consensus': rng.random() < 0.4}
     live_c, live_s = {}, {}            # Tor id -> object id
     n_c = n_s = 0
     listening_c, listening_s = {}, {}  # object -> set of lids
@@ -200,8 +200,9 @@ def gen_case(rng, *, n_ops, listeners=True, waits=True, attach=False, weird=Fals
         see_strm(l)
     ops = case['ops']
     if attacher_first:
-        ops.append(['att', 1])
-        attacher = 1
+        # attacher 7 is a PriorityAttacher installed while still empty (see tstate.py)
+        attacher = rng.choice([1, 1, 7])
+        ops.append(['att', attacher])
     registered = []            # local ports of via-circuit connections whose stream has not shown up
     consumed = []              # local ports whose registration was used up by a stream (the port may be reused later)
     if via:
@@ -333,7 +334,7 @@ def gen_case(rng, *, n_ops, listeners=True, waits=True, attach=False, weird=Fals
                 t = asked.pop(rng.randrange(len(asked)))
                 ops.append(['ans', t, rng.choice(['n', 'd', 'x', 'z0', 'z1', 'z2', 'z3', 'r'] + (['c%d' % rng.randrange(n_c)] * 4 if n_c else []))])
             elif k < 0.8:
-                n = rng.choice([1, 1, 2])
+                n = rng.choice([1, 1, 2, 7])
                 if attacher is None:
                     attacher = n
                 ops.append(['att', n])
